@@ -178,7 +178,9 @@ func runCheck(prop, repo, verifDir, tier, only string, workers int, verbose, noE
 		}
 	}
 	genSecs := time.Since(t0).Seconds() - loadSecs
+	fmt.Fprintf(os.Stderr, "[timing] load %.1fs gen %.1fs obligations %d\n", loadSecs, genSecs, len(allObs))
 	results := SolveAll(allObs, workers)
+	fmt.Fprintf(os.Stderr, "[timing] solved at %.1fs\n", time.Since(t0).Seconds())
 	rep := buildReport(prop, tier, runs, results, cs, time.Since(t0).Seconds(), loadSecs, genSecs, verifDir, verbose)
 	if !noEvidence && prop != "" && prop != "all" && only == "" {
 		if err := rep.writeEvidence(verifDir); err != nil {
@@ -209,7 +211,7 @@ func buildReport(prop, tier string, runs []*FuncRun, results []*Result, cs *Cont
 	var failures []*Result
 	for _, r := range results {
 		solverSecs += r.Time
-		or := obReport{Name: r.Ob.Name, Kind: r.Ob.Kind, Status: r.Status, Solver: r.Solver, Secs: round3(r.Time), Note: r.Ob.Note}
+		or := obReport{Name: r.Ob.Name, Kind: r.Ob.Kind, Status: r.Status, Solver: r.Solver, Secs: round3(r.Wall), Note: r.Ob.Note}
 		obs = append(obs, or)
 		if r.Ob.Cover {
 			covers++
